@@ -11,13 +11,24 @@ from . import thir as T
 
 
 class Spec:
-    def __init__(self, F, max_depth=3):
+    def __init__(self, F, max_depth=3, assume=None):
         self.F = F
         self.max_depth = max_depth
+        # assume(node) -> constant | None : lets a rule fix the value of an expression that is not a variable
+        # (e.g. "the scrutinee `edge.weight()` is an Edge::Jump")
+        self.assume = assume
 
     # ---- constants
     def cev(self, n, env, depth=0):
+        if self.assume is not None:
+            a = self.assume(n)
+            if a is not None:
+                return a
         n = T.peel(n)
+        if self.assume is not None:
+            a = self.assume(n)
+            if a is not None:
+                return a
         k = n.get("k")
         if k in ("Var", "Upvar"):
             return env.get(n["id"])
@@ -173,49 +184,133 @@ class Spec:
 
     # ---- reachable nodes
     def reach(self, n, env, depth=0):
+        """nodes that can execute under env. Control flow is respected: code after a statement that certainly leaves
+        (return / break / continue / panic on every remaining path) is not reachable."""
         out = []
         self._reach(n, dict(env), out, depth)
         return out
 
     def _reach(self, n, env, out, depth):
+        """appends reachable nodes; returns True if evaluation of n certainly does not fall through"""
         out.append(n)
         k = n.get("k")
+        if k in ("Break", "Continue", "Return"):
+            for c in T.children(n):
+                self._reach(c, env, out, depth)
+            return True
         if k == "If":
             c = self.cev(n["c"], env, depth)
             self._reach(n["c"], env, out, depth)
             if c and c[0] == "bool":
                 br = n["th"] if c[1] else n.get("el")
                 if br is not None:
-                    self._reach(br, dict(env), out, depth)
-                return
-            self._reach(n["th"], dict(env), out, depth)
-            if n.get("el") is not None:
-                self._reach(n["el"], dict(env), out, depth)
-            return
+                    return self._reach(br, dict(env), out, depth)
+                return False
+            d1 = self._reach(n["th"], dict(env), out, depth)
+            d2 = self._reach(n["el"], dict(env), out, depth) if n.get("el") is not None else False
+            return d1 and d2
         if k == "Match":
             c = self.cev(n["e"], env, depth)
             self._reach(n["e"], env, out, depth)
             arm = self.select_arm(n, c, env, depth)
             arms = [arm] if arm is not None else [a for a in n["arms"] if self.pat_matches(a["p"], c) is not False]
+            ds = []
             for a in arms:
                 env2 = dict(env)
                 self.bind(a["p"], c, env2)
                 if "g" in a:
                     self._reach(a["g"], env2, out, depth)
-                self._reach(a["b"], env2, out, depth)
-            return
+                ds.append(self._reach(a["b"], env2, out, depth))
+            # a guarded arm may fall to later arms: only a definite selection or all candidates diverging counts
+            return bool(ds) and all(ds)
         if k == "Block":
             for s_ in n.get("ss", []):
-                self._reach(s_, env, out, depth)
+                if self._reach(s_, env, out, depth):
+                    return True
             if n.get("e") is not None:
-                self._reach(n["e"], env, out, depth)
-            return
+                return self._reach(n["e"], env, out, depth)
+            return False
         if k == "LetStmt":
+            d = False
             if "i" in n:
-                self._reach(n["i"], env, out, depth)
+                d = self._reach(n["i"], env, out, depth)
                 self.bind(n["p"], self.cev(n["i"], env, depth), env)
             if "els" in n:
                 self._reach(n["els"], dict(env), out, depth)
-            return
+            return d
+        if k == "Loop":
+            self._reach(n["b"], dict(env), out, depth)
+            return False
+        if k == "Closure":
+            return False
+        d = False
         for c in T.children(n):
-            self._reach(c, env, out, depth)
+            if self._reach(c, env, out, depth):
+                d = True
+        if k == "Call" and T.diverges(n):
+            return True
+        return d if k in T.WRAPPERS or k in ("Use", "NeverToAny", "Scope") else False
+
+    # ---- results
+    def results(self, body, env):
+        """(result expressions, reachable nodes) of a function body under env: the operands of reachable `return e` and the
+        reachable tail expressions (leaves of if / match / block in tail position)."""
+        nodes = self.reach(body, env)
+        rets = [n["e"] for n in nodes if n.get("k") == "Return" and n.get("e") is not None]
+        leaves = []
+        self._leaves(body, dict(env), leaves)
+        return rets + leaves, nodes
+
+    def _leaves(self, n, env, out):
+        n0 = n
+        n = T.peel(n) if n.get("k") in T.WRAPPERS else n
+        k = n.get("k")
+        if k in ("Use", "NeverToAny", "Scope") and "e" in n:
+            return self._leaves(n["e"], env, out)
+        if k == "Block":
+            for s_ in n.get("ss", []):
+                scratch = []
+                if self._reach(s_, env, scratch, 0):
+                    return
+            if n.get("e") is not None:
+                self._leaves(n["e"], env, out)
+            return
+        if k == "If":
+            c = self.cev(n["c"], env)
+            if c and c[0] == "bool":
+                br = n["th"] if c[1] else n.get("el")
+                if br is not None:
+                    self._leaves(br, dict(env), out)
+                return
+            self._leaves(n["th"], dict(env), out)
+            if n.get("el") is not None:
+                self._leaves(n["el"], dict(env), out)
+            return
+        if k == "Match":
+            c = self.cev(n["e"], env)
+            arm = self.select_arm(n, c, env, 0)
+            arms = [arm] if arm is not None else [a for a in n["arms"] if self.pat_matches(a["p"], c) is not False]
+            for a in arms:
+                env2 = dict(env)
+                self.bind(a["p"], c, env2)
+                self._leaves(a["b"], env2, out)
+            return
+        if k in ("Return", "Break", "Continue"):
+            return
+        out.append(n0)
+
+
+def option_kind(n):
+    """'None' | ('Some', payload node) | None for an Option-valued result expression"""
+    n = T.peel(n)
+    while n.get("k") == "Block" and not n.get("ss") and n.get("e") is not None:
+        n = T.peel(n["e"])
+    if n.get("k") == "Adt" and n.get("adt", "").endswith("option::Option"):
+        if n.get("v") == "None":
+            return "None"
+        if n.get("v") == "Some":
+            fs = n.get("fs", {})
+            return ("Some", list(fs.values())[0] if fs else None)
+    if n.get("k") == "Call" and n.get("n") == "Some" and n.get("a"):
+        return ("Some", n["a"][0])
+    return None
